@@ -125,6 +125,48 @@ def check(sid, checks):
     print("caught by:", meta["caught_by"])
 
 
+def recheck(sids, checks):
+    """re-run the checks on scratch copies of /repo with each seeded patch applied (never touches /repo); updates
+    meta['checks_current'] / meta['caught_by_current'] — the record of the apply-to-/repo run stays in meta['checks']"""
+    sys.path.insert(0, V)
+    from rtcpverif import controls
+    import tempfile
+
+    def one(sid):
+        tmp = tempfile.mkdtemp(prefix="rtcpseed")
+        try:
+            controls._copy_tree(tmp)
+            r = subprocess.run(["patch", "-p1", "-s", "-f", "-i", os.path.join(V, "seeded", sid, "patch.diff")], cwd=tmp, capture_output=True, text=True)
+            if r.returncode != 0:
+                return sid, None
+            res = {}
+            controls._run(checks[0], tmp)
+            with cf.ThreadPoolExecutor(max_workers=4) as ex:
+                for c, (rc, rules) in zip(checks, ex.map(lambda c: controls._run(c, tmp), checks)):
+                    res[c] = {"exit": rc, "first": rules[:3]}
+            return sid, res
+        finally:
+            shutil.rmtree(tmp, ignore_errors=True)
+
+    with cf.ThreadPoolExecutor(max_workers=4) as ex:
+        for sid, res in ex.map(one, sids):
+            mp = os.path.join(V, "seeded", sid, "meta.json")
+            meta = json.load(open(mp))
+            if res is None:
+                print(sid, "patch does not apply")
+                continue
+            meta["checks_current"] = res
+            meta["caught_by_current"] = sorted(c for c, r in res.items() if r["exit"] == 1)
+            own = res.get(meta["property"], {})
+            if own.get("exit") == 1 and own.get("first"):
+                parts = own["first"][0].split(" — ")
+                meta["own_property_rule"] = parts[1] if len(parts) > 1 else ""
+            json.dump(meta, open(mp, "w"), indent=1)
+            bad = {c: r["exit"] for c, r in res.items() if r["exit"] not in (0, 1)}
+            print(sid, "caught by:", meta["caught_by_current"], ("ERRORS " + str(bad)) if bad else "")
+            sys.stdout.flush()
+
+
 def index():
     rows = []
     for sid in sorted(os.listdir(os.path.join(V, "seeded"))):
@@ -133,7 +175,7 @@ def index():
             continue
         m = json.load(open(mp))
         rows.append(f"| {sid} | {m['property']} | {', '.join(m.get('files', []))} | {m.get('summary','')} | {m.get('needs_to_manifest','')} | "
-                    f"{', '.join(m.get('caught_by', [])) or '—'} | {m.get('own_property_rule','')} |")
+                    f"{', '.join(m.get('caught_by_current', m.get('caught_by', []))) or '—'} | {m.get('own_property_rule','')} |")
     with open(os.path.join(V, "seeded", "INDEX.md"), "w") as f:
         f.write("# Seeded changes and the checks that catch them\n\nGenerated by `dev/seed.py index` from `seeded/*/meta.json`. "
                 "Every change compiles, passes the 94 existing tests, and fails its own demonstration (`demo.rs`, an integration test).\n\n"
@@ -150,5 +192,8 @@ if __name__ == "__main__":
         sys.exit(0 if confirm(sid, wt) else 1)
     elif cmd == "check":
         check(sys.argv[2], sys.argv[3:] or ALL)
+    elif cmd == "recheck":
+        sids = [a for a in sys.argv[2:] if not a.startswith("--")] or sorted(d for d in os.listdir(os.path.join(V, "seeded")) if os.path.isdir(os.path.join(V, "seeded", d)))
+        recheck(sids, ALL)
     elif cmd == "index":
         index()
